@@ -33,8 +33,8 @@ var c17Programs = []struct {
 }
 
 // The program's own SHA-256: correct, implements hash.Hash and nothing else (no marshalling, no io.ByteWriter...),
-// and uses every freedom the hash.Hash contract leaves: Sum returns a freshly allocated slice instead of appending
-// in place, Write consumes its input in two pieces.
+// and uses every freedom the hash.Hash contract leaves: Sum returns a freshly allocated slice (with spare capacity) instead of
+// appending in place, Write consumes its input in two pieces.
 const c17Wrapper = `
 type onlyHash struct{ h hash.Hash }
 
@@ -48,7 +48,7 @@ func (o onlyHash) Write(p []byte) (int, error) {
 
 func (o onlyHash) Sum(b []byte) []byte {
 	d := o.h.Sum(nil)
-	out := make([]byte, 0, len(b)+len(d))
+	out := make([]byte, 0, len(b)+len(d)+128) // fresh AND with spare capacity: both are allowed by the contract
 	out = append(out, b...)
 
 	return append(out, d...)
